@@ -112,6 +112,16 @@ def retain_cases(rng, reps):
     for ct in (72, 73, 74, 85, 86, 87, 20, 50, 102, 110, 120, 121, 90, 13, 255):
         out.append({"mode": "retain", "ty": 0x10, "payload": "", "reps": reps,
                     "cmd": {"CommandType": ct, "CommandId": "r", "Token": "", "SenderId": "", "ReceiverId": "", "CommandBody": "{}"}})
+    # command RESPONSES and proxy traffic naming fresh peer-chosen ids in every packet (state keyed by such an id must not pile up)
+    fresh = '{"request_id":"q-@SEQ@","tunnel_id":"t-@SEQ@","mapping_id":"m-@SEQ@","domain":"d@SEQ@.example","status_code":200,"body":"%s"}' % ("QUJD" * 512)
+    for ty in (0x10, 0x11):
+        for ct in (80, 81, 82, 83, 84, 72, 85, 20, 110, 120, rng.randrange(256)):
+            out.append({"mode": "retain", "ty": ty, "payload": "", "reps": reps,
+                        "cmd": {"CommandType": ct, "CommandId": "f", "Token": "", "SenderId": "", "ReceiverId": "", "CommandBody": fresh}})
+    # every (packet type, command type) pair in one run, large bodies, judged on the total retained
+    big = '{"request_id":"q-@SEQ@","tunnel_id":"t-@SEQ@","mapping_id":"m-@SEQ@","body":"%s"}' % ("QUJD" * 65536)
+    out.append({"mode": "retain", "ty": 0x10, "payload": "", "reps": 2048, "sweep": True,
+                "cmd": {"CommandType": 0, "CommandId": "s", "Token": "", "SenderId": "", "ReceiverId": "", "CommandBody": big}})
     out.append({"mode": "retain", "ty": 0x20, "payload": b'{"tunnel_id":"t","mapping_id":"m"}'.hex(), "reps": reps})
     out.append({"mode": "retain", "ty": 0x01, "payload": b'{"client_id":12345}'.hex(), "reps": reps})
     out.append({"mode": "retain", "ty": 0x03, "payload": "", "reps": reps})
